@@ -37,16 +37,16 @@ Proof.
 Qed.
 
 (* ---- states after a history -------------------------------------------------------------------- *)
-Fixpoint m_final (st : sched * heap) (ops : list op) : sched * heap :=
+Fixpoint m_final (st : sched * mheap) (ops : list op) : sched * mheap :=
   match ops with [] => st | o :: r => m_final (fst (m_step st o)) r end.
 Fixpoint s_final (st : sched * store) (ops : list op) : sched * store :=
   match ops with [] => st | o :: r => s_final (fst (s_step st o)) r end.
 
-Definition m_init : sched * heap := (sched_init, heap_init).
+Definition ms_init : sched * mheap := (sched_init, m_init).
 Definition s_init : sched * store := (sched_init, store_init).
 
 (* the observation of operation o after the history ops *)
-Definition obs_after (ops : list op) (o : op) : obs := snd (m_step (m_final m_init ops) o).
+Definition obs_after (ops : list op) (o : op) : obs := snd (m_step (m_final ms_init ops) o).
 
 Lemma m_from_app ops : forall st o, m_from st (ops ++ [o]) = m_from st ops ++ [snd (m_step (m_final st ops) o)].
 Proof.
@@ -56,11 +56,11 @@ Proof.
 Qed.
 
 Theorem run_app ops o : run (ops ++ [o]) = run ops ++ [obs_after ops o].
-Proof. apply (m_from_app ops m_init o). Qed.
+Proof. apply (m_from_app ops ms_init o). Qed.
 
-Lemma final_sim ops : forall sc h s, R h s ->
+Lemma final_sim ops : forall sc h s, RM h s ->
   fst (m_final (sc, h) ops) = fst (s_final (sc, s) ops) /\
-  R (snd (m_final (sc, h) ops)) (snd (s_final (sc, s) ops)).
+  RM (snd (m_final (sc, h) ops)) (snd (s_final (sc, s) ops)).
 Proof.
   induction ops as [|o ops IH]; intros sc h s HR; cbn [m_final s_final]; [now split|].
   destruct (step_sim sc h s o HR) as (E1 & _ & E3).
@@ -69,20 +69,25 @@ Proof.
 Qed.
 
 (* every reachable pair of states is related *)
+Theorem reachable_RM ops :
+  fst (m_final ms_init ops) = fst (s_final s_init ops) /\
+  RM (snd (m_final ms_init ops)) (snd (s_final s_init ops)).
+Proof. apply (final_sim ops sched_init m_init store_init RM_init). Qed.
+
 Theorem reachable_R ops :
-  fst (m_final m_init ops) = fst (s_final s_init ops) /\
-  R (snd (m_final m_init ops)) (snd (s_final s_init ops)).
-Proof. apply (final_sim ops sched_init heap_init store_init R_init). Qed.
+  fst (m_final ms_init ops) = fst (s_final s_init ops) /\
+  R (fst (snd (m_final ms_init ops))) (snd (s_final s_init ops)).
+Proof. destruct (reachable_RM ops) as [E [H _]]. now split. Qed.
 
 Theorem obs_after_spec ops o : obs_after ops o = snd (s_step (s_final s_init ops) o).
 Proof.
-  unfold obs_after. destruct (reachable_R ops) as [E HR].
-  destruct (m_final m_init ops) as [sc h]. destruct (s_final s_init ops) as [sc' s]. cbn [fst snd] in *. subst sc'.
+  unfold obs_after. destruct (reachable_RM ops) as [E HR].
+  destruct (m_final ms_init ops) as [sc h]. destruct (s_final s_init ops) as [sc' s]. cbn [fst snd] in *. subst sc'.
   now destruct (step_sim sc h s o HR) as (_ & E2 & _).
 Qed.
 
 (* ---- no undefined behaviour ---------------------------------------------------------------------- *)
-Theorem reachable_heap_good ops : good (hc (snd (m_final m_init ops))).
+Theorem reachable_heap_good ops : good (hc (fst (snd (m_final ms_init ops)))).
 Proof. destruct (reachable_R ops) as [_ HR]. apply (r_good _ _ HR). Qed.
 
 Lemma s_mk_obs_ub c sc s ok : oub (mk_obs store s_obs c sc s ok) = false.
@@ -93,10 +98,10 @@ Proof.
   destruct st as [sc s]. unfold s_step.
   destruct o as [lbl np prog args|r|r|r|r|a b|a b|dt| |]; cbn [step_op]; try reflexivity.
   - destruct (s_begin lbl s) as [s1 t]. destruct lbl.
-    + destruct (run_st store s_end s_kill s_spawn s_spawned sc s1 t _ _ _ _) as [sa s2].
-      destruct (resume store s_end s_kill s_kill s_spawn s_spawned (weight sa) sa s2) as [[sc3 s3] ok]. reflexivity.
+    + destruct (run_st store s_end s_kill s_noop s_noop s_spawn s_spawned sc s1 t _ _ _ _) as [sa s2].
+      destruct (resume store s_end s_kill s_noop s_noop s_noop s_spawn s_spawned (weight sa) sa _) as [[sc3 s3] ok]. reflexivity.
     + reflexivity.
-  - destruct (resume store s_end s_kill s_kill s_spawn s_spawned _ _ s) as [[sc3 s3] ok]. reflexivity.
+  - destruct (resume store s_end s_kill s_noop s_noop s_noop s_spawn s_spawned _ _ s) as [[sc3 s3] ok]. reflexivity.
 Qed.
 
 Theorem never_ub ops : forall ob, In ob (run ops) -> oub ob = false.
@@ -108,15 +113,16 @@ Proof.
 Qed.
 
 (* ---- label not found ------------------------------------------------------------------------------ *)
-Theorem label_not_found_leaves_nothing sc h np prog args :
-  let st' := fst (m_step (sc, h) (OCall false np prog args)) in
-  let ob := snd (m_step (sc, h) (OCall false np prog args)) in
-  fst st' = sc /\ hc (snd st') = hc h /\ vms (snd st') = vms h /\ locs (snd st') = locs h /\
-  tcall (snd st') = tcall h /\ tmps (snd st') = tmps h /\
-  recs (snd st') = recs h ++ [(nrec h, mkRec args None)] /\
+Theorem label_not_found_leaves_nothing sc (m : mheap) np prog args :
+  let st' := fst (m_step (sc, m) (OCall false np prog args)) in
+  let ob := snd (m_step (sc, m) (OCall false np prog args)) in
+  let h := fst m in let h' := fst (snd st') in
+  fst st' = sc /\ snd (snd st') = snd m /\ hc h' = hc h /\ vms h' = vms h /\ locs h' = locs h /\
+  tcall h' = tcall h /\ tmps h' = tmps h /\
+  recs h' = recs h ++ [(nrec h, mkRec args None)] /\
   ocall ob = CNoLabel /\ onrun ob = instances (map fst (vms h)) (tcall h) /\
   onth ob = (length (pend sc) + length (paused sc))%nat.
-Proof. cbn. repeat split. Qed.
+Proof. destruct m as [h v]. cbn. repeat split. Qed.
 
 Theorem label_not_found_spec sc s np prog args :
   let st' := fst (s_step (sc, s) (OCall false np prog args)) in
@@ -276,7 +282,7 @@ Qed.
 (* nothing is pending once its thread is gone: in every reachable state a Pointer-typed cell
    belongs to a thread that is alive *)
 Theorem pending_implies_alive ops :
-  forall k p, holds (hc (snd (m_final m_init ops))) k p -> exists rc, In (p, rc) (vms (snd (m_final m_init ops))).
+  forall k p, holds (hc (fst (snd (m_final ms_init ops)))) k p -> exists rc, In (p, rc) (vms (fst (snd (m_final ms_init ops)))).
 Proof.
   destruct (reachable_R ops) as [_ HR]. intros k p Hh.
   pose proof (r_ptr_alive _ _ HR k p Hh) as Ha. rewrite <- (r_alive _ _ HR) in Ha.
@@ -310,33 +316,45 @@ Section SInv.
   Lemma P_kill t s : P s -> P (s_kill t s).
   Proof. intro H. unfold s_kill. now apply P_end. Qed.
 
-  Lemma s_run_simple_inv sc s t steps f : P s -> P (snd (run_simple store s_end s_kill sc s t steps f)).
+  Lemma s_run_simple_inv sc s t steps f : P s -> P (snd (run_simple store s_end s_kill s_noop sc s t steps f)).
   Proof.
-    intro HP. unfold run_simple. destruct steps as [|[d|d] rest]; cbn [snd]; auto.
-    destruct f as [[d|j|]| | |d|d| | |n|]; cbn [snd]; auto using P_kill.
+    intro HP. unfold run_simple, park. destruct steps as [|[d|d|w hp] rest]; cbn [snd]; try exact HP.
+    destruct f as [[d|j|]| | |d|d| | |n|]; cbn [snd]; try exact HP; auto using P_kill.
   Qed.
 
   Lemma s_run_st_inv subs : forall sc s t pre post f, P s ->
-    P (snd (run_st store s_end s_kill s_spawn s_spawned sc s t pre subs post f)).
+    P (snd (run_st store s_end s_kill s_noop s_noop s_spawn s_spawned sc s t pre subs post f)).
   Proof.
     induction subs as [|l more IH]; intros sc s t pre post f HP; cbn [run_st].
-    - destruct pre as [|[d|d] rest]; cbn [snd]; auto. now apply s_run_simple_inv.
-    - destruct pre as [|[d|d] rest]; cbn [snd]; auto.
+    - destruct pre as [|[d|d|w hp] rest]; unfold park; cbn [snd]; try exact HP. now apply s_run_simple_inv.
+    - destruct pre as [|[d|d|w hp] rest]; unfold park; cbn [snd]; try exact HP.
       pose proof (P_spawn t s HP) as H1. destruct (s_spawn t s) as [s1 c]. cbn [fst] in H1.
       pose proof (IH sc s1 c (lpre l) (lpost l) (resolve [] (lfin l)) H1) as H2.
-      destruct (run_st store s_end s_kill s_spawn s_spawned sc s1 c (lpre l) more (lpost l) (resolve [] (lfin l))) as [sa s2].
+      destruct (run_st store s_end s_kill s_noop s_noop s_spawn s_spawned sc s1 c (lpre l) more (lpost l) (resolve [] (lfin l))) as [sa s2].
       cbn [snd] in H2. apply s_run_simple_inv. now apply P_spawned.
   Qed.
 
-  Lemma s_run_thr_inv sc s th : P s -> P (snd (run_thr store s_end s_kill s_kill s_spawn s_spawned sc s th)).
+  Lemma s_helper_act_inv sc s t a : P s -> P (snd (helper_act store s_kill s_noop sc s t a)).
   Proof.
-    intro HP. destruct th as [t ts|t [|]]; cbn [run_thr].
-    - now apply s_run_st_inv.
+    intro HP. unfold helper_act. destruct a as [e| |].
+    - destruct (parked_ts sc t); exact HP.
+    - destruct (parked_ts sc t); exact HP.
     - cbn [snd]. now apply P_kill.
-    - destruct (lookup t (paused sc)) as [ts|]; cbn [snd]; auto.
   Qed.
 
-  Lemma s_resume_inv fuel : forall sc s, P s -> P (snd (fst (resume store s_end s_kill s_kill s_spawn s_spawned fuel sc s))).
+  Lemma s_run_thr_inv sc s th : P s -> P (snd (run_thr store s_end s_kill s_noop s_noop s_noop s_spawn s_spawned sc s th)).
+  Proof.
+    intro HP. destruct th as [t ts|t [|]|t hp]; cbn [run_thr].
+    - pose proof (s_run_st_inv (tsubs ts) sc (s_noop t s) t (tpre ts) (tpost ts) (tfin ts) HP) as H1.
+      destruct (run_st store s_end s_kill s_noop s_noop s_spawn s_spawned sc (s_noop t s) t (tpre ts) (tsubs ts) (tpost ts) (tfin ts)) as [sa s1].
+      exact H1.
+    - cbn [snd]. now apply P_kill.
+    - destruct (lookup t (paused sc)) as [ts|]; cbn [snd]; auto.
+    - destruct hp as [|[d a] rest]; [exact HP|].
+      pose proof (s_helper_act_inv sc s t a HP) as H1. destruct (helper_act store s_kill s_noop sc s t a) as [sa s1]. exact H1.
+  Qed.
+
+  Lemma s_resume_inv fuel : forall sc s, P s -> P (snd (fst (resume store s_end s_kill s_noop s_noop s_noop s_spawn s_spawned fuel sc s))).
   Proof.
     induction fuel as [|fuel IH]; intros sc s HP; cbn [resume].
     - destruct (pend sc) as [|x r]; cbn [fst snd]; auto.
@@ -345,7 +363,7 @@ Section SInv.
       destruct (frame sc <? wdue (min_w x r)); cbn [fst snd]; auto.
       pose proof (s_run_thr_inv (mkSched (remove_w (wseq (min_w x r)) (x :: r)) (paused sc) (frame sc) (clock sc) (sseq sc))
                                 s (wthr (min_w x r)) HP) as H1.
-      destruct (run_thr store s_end s_kill s_kill s_spawn s_spawned _ s (wthr (min_w x r))) as [sa sb]. cbn [snd] in H1. now apply IH.
+      destruct (run_thr store s_end s_kill s_noop s_noop s_noop s_spawn s_spawned _ s (wthr (min_w x r))) as [sa sb]. cbn [snd] in H1. now apply IH.
   Qed.
 
   Lemma s_kill_all_inv l : forall s, P s -> P (fold_left (fun s t => s_kill t s) l s).
@@ -390,34 +408,43 @@ Proof.
   destruct ((t <? u) && _); reflexivity.
 Qed.
 
-Lemma s_run_simple_stmps sc x t steps f : stmps (snd (run_simple store s_end s_kill sc x t steps f)) = stmps x.
+Lemma s_run_simple_stmps sc x t steps f : stmps (snd (run_simple store s_end s_kill s_noop sc x t steps f)) = stmps x.
 Proof.
-  unfold run_simple. destruct steps as [|[d|d] rest]; cbn [snd]; auto.
-  destruct f as [[d|j|]| | |d|d| | |n|]; cbn [snd]; auto using stmps_end; unfold s_kill; apply stmps_end.
+  unfold run_simple, park. destruct steps as [|[d|d|w hp] rest]; cbn [snd]; try reflexivity.
+  destruct f as [[d|j|]| | |d|d| | |n|]; cbn [snd]; try reflexivity; auto using stmps_end; unfold s_kill; apply stmps_end.
 Qed.
 
 Lemma s_run_st_stmps subs : forall sc x t pre post f,
-  stmps (snd (run_st store s_end s_kill s_spawn s_spawned sc x t pre subs post f)) = stmps x.
+  stmps (snd (run_st store s_end s_kill s_noop s_noop s_spawn s_spawned sc x t pre subs post f)) = stmps x.
 Proof.
   induction subs as [|l more IH]; intros sc x t pre post f; cbn [run_st].
-  - destruct pre as [|[d|d] rest]; cbn [snd]; auto. apply s_run_simple_stmps.
-  - destruct pre as [|[d|d] rest]; cbn [snd]; auto.
+  - destruct pre as [|[d|d|w hp] rest]; unfold park; cbn [snd]; try reflexivity. apply s_run_simple_stmps.
+  - destruct pre as [|[d|d|w hp] rest]; unfold park; cbn [snd]; try reflexivity.
     pose proof (IH sc (fst (s_spawn t x)) (snd (s_spawn t x)) (lpre l) (lpost l) (resolve [] (lfin l))) as H.
     destruct (s_spawn t x) as [s1 c] eqn:Es. cbn [fst snd] in H.
-    destruct (run_st store s_end s_kill s_spawn s_spawned sc s1 c (lpre l) more (lpost l) (resolve [] (lfin l))) as [sa s2].
-    cbn [snd] in H. rewrite s_run_simple_stmps, stmps_spawned, H.
+    destruct (run_st store s_end s_kill s_noop s_noop s_spawn s_spawned sc s1 c (lpre l) more (lpost l) (resolve [] (lfin l))) as [sa s2].
+    cbn [snd] in H. rewrite s_run_simple_stmps, stmps_spawned. unfold s_noop. rewrite H.
     unfold s_spawn, s_thread_begin in Es. injection Es as <- _. reflexivity.
 Qed.
 
-Lemma s_run_thr_stmps sc x th : stmps (snd (run_thr store s_end s_kill s_kill s_spawn s_spawned sc x th)) = stmps x.
+Lemma s_run_thr_stmps sc x th : stmps (snd (run_thr store s_end s_kill s_noop s_noop s_noop s_spawn s_spawned sc x th)) = stmps x.
 Proof.
-  destruct th as [t ts|t [|]]; cbn [run_thr].
-  - apply s_run_st_stmps.
+  destruct th as [t ts|t [|]|t hp]; cbn [run_thr].
+  - pose proof (s_run_st_stmps (tsubs ts) sc (s_noop t x) t (tpre ts) (tpost ts) (tfin ts)) as H1.
+    destruct (run_st store s_end s_kill s_noop s_noop s_spawn s_spawned sc (s_noop t x) t (tpre ts) (tsubs ts) (tpost ts) (tfin ts)) as [sa s1].
+    exact H1.
   - cbn [snd]. unfold s_kill. apply stmps_end.
   - destruct (lookup t (paused sc)); reflexivity.
+  - destruct hp as [|[d a] rest]; [reflexivity|].
+    assert (H1 : stmps (snd (helper_act store s_kill s_noop sc x t a)) = stmps x).
+    { unfold helper_act. destruct a as [e| |].
+      - destruct (parked_ts sc t); reflexivity.
+      - destruct (parked_ts sc t); reflexivity.
+      - cbn [snd]. unfold s_kill. apply stmps_end. }
+    destruct (helper_act store s_kill s_noop sc x t a) as [sa s1]. exact H1.
 Qed.
 
-Lemma s_resume_stmps fuel : forall sc x, stmps (snd (fst (resume store s_end s_kill s_kill s_spawn s_spawned fuel sc x))) = stmps x.
+Lemma s_resume_stmps fuel : forall sc x, stmps (snd (fst (resume store s_end s_kill s_noop s_noop s_noop s_spawn s_spawned fuel sc x))) = stmps x.
 Proof.
   induction fuel as [|fuel IH]; intros sc x; cbn [resume].
   - destruct (pend sc) as [|y r]; cbn [fst snd]; auto.
@@ -426,7 +453,7 @@ Proof.
     destruct (frame sc <? wdue (min_w y r)); cbn [fst snd]; auto.
     pose proof (s_run_thr_stmps (mkSched (remove_w (wseq (min_w y r)) (y :: r)) (paused sc) (frame sc) (clock sc) (sseq sc))
                                 x (wthr (min_w y r))) as H1.
-    destruct (run_thr store s_end s_kill s_kill s_spawn s_spawned _ x (wthr (min_w y r))) as [sa sb]. cbn [snd] in H1.
+    destruct (run_thr store s_end s_kill s_noop s_noop s_noop s_spawn s_spawned _ x (wthr (min_w y r))) as [sa sb]. cbn [snd] in H1.
     now rewrite IH.
 Qed.
 
@@ -463,9 +490,10 @@ Proof.
   assert (P_spawned : forall t0 c x, P x -> P (s_spawned t0 c x)).
   { intros t0 c x [H1 H2]. split; [now apply value_inv_spawned|]. unfold s_spawned.
     destruct (stmps x) as [|u rest]; [exact H2|]. destruct ((t0 <? u) && _); exact H2. }
+  change (s_noop t s2) with s2.
   pose proof (s_resume_inv P P_end P_spawn P_spawned (weight sc) sc s2 P2) as P3.
   pose proof (s_resume_stmps (weight sc) sc s2) as T3.
-  destruct (resume store s_end s_kill s_kill s_spawn s_spawned (weight sc) sc s2) as [[sc3 s3] ok]. cbn [fst snd] in P3, T3.
+  destruct (resume store s_end s_kill s_noop s_noop s_noop s_spawn s_spawned (weight sc) sc s2) as [[sc3 s3] ok]. cbn [fst snd] in P3, T3.
   destruct P3 as [(D3 & A3 & R3 & N3) _]. rewrite T2 in T3.
   unfold s_finish. rewrite T3, D3. cbn [snd mk_obs].
   unfold mk_obs, s_obs, s_alive. cbn [ocall orecs alive done srecs snrec sncall].
@@ -519,9 +547,9 @@ Proof.
                     (lpre match prog with l :: _ => l | [] => mkLevel [] [] FFall end)
                     (lpost match prog with l :: _ => l | [] => mkLevel [] [] FFall end)
                     (resolve (bind np args) (lfin match prog with l :: _ => l | [] => mkLevel [] [] FFall end)) P1) as P2.
-      destruct (run_st store s_end s_kill s_spawn s_spawned sc s1 t1 _ _ _ _) as [sa s2]. cbn [snd] in P2.
+      destruct (run_st store s_end s_kill s_noop s_noop s_spawn s_spawned sc s1 t1 _ _ _ _) as [sa s2]. cbn [snd] in P2.
       pose proof (s_resume_inv P P_end P_spawn P_spawned (weight sa) sa s2 P2) as P3.
-      destruct (resume store s_end s_kill s_kill s_spawn s_spawned (weight sa) sa s2) as [[sc3 s3] ok]. cbn [fst snd] in *.
+      destruct (resume store s_end s_kill s_noop s_noop s_noop s_spawn s_spawned (weight sa) sa _) as [[sc3 s3] ok]. cbn [fst snd] in *.
       unfold s_finish. destruct P3 as [[H1 _] _]. destruct (stmps s3); cbn [done]; exact H1.
     + cbn [fst snd]. unfold s_finish. cbn [done]. exact Hx.
   - cbn [fst snd]. unfold s_copy. destruct (lookup r (srecs s)); exact Hx.
@@ -535,7 +563,7 @@ Proof.
   - exact Hx.
   - pose proof (s_resume_inv P P_end P_spawn P_spawned (weight (mkSched (pend sc) (paused sc) (clock sc) (clock sc) (sseq sc)))
                              (mkSched (pend sc) (paused sc) (clock sc) (clock sc) (sseq sc)) s P0) as P3.
-    destruct (resume store s_end s_kill s_kill s_spawn s_spawned _ _ s) as [[sc3 s3] ok]. cbn [fst snd] in *. apply P3.
+    destruct (resume store s_end s_kill s_noop s_noop s_noop s_spawn s_spawned _ _ s) as [[sc3 s3] ok]. cbn [fst snd] in *. apply P3.
   - cbn [fst snd]. unfold s_reset. apply (s_kill_all_inv P P_end (alive s) s P0).
 Qed.
 
@@ -628,6 +656,8 @@ Lemma w_steps_wait d r : w_steps (SWait d :: r) = S (w_steps r).
 Proof. reflexivity. Qed.
 Lemma w_steps_pause d r : w_steps (SPause d :: r) = S (S (w_steps r)).
 Proof. reflexivity. Qed.
+Lemma w_steps_park w hp r : w_steps (SPark w hp :: r) = S (S (2 * length hp + w_steps r)).
+Proof. reflexivity. Qed.
 Lemma w_steps_nil : w_steps [] = O.
 Proof. reflexivity. Qed.
 Lemma w_subs_nil : w_subs [] = O.
@@ -684,7 +714,7 @@ Section Fuel.
   Variable H : Type.
   Variable h_end : N -> endv -> H -> H.
   Variable h_kill : N -> H -> H.
-  Variable h_killx : N -> H -> H.
+  Variable h_exec h_suspend h_tail : N -> H -> H.
   Variable h_spawn : N -> H -> H * N.
   Variable h_spawned : N -> N -> H -> H.
 
@@ -695,51 +725,108 @@ Section Fuel.
   Proof. rewrite !weight_eq. unfold pause. cbn [pend paused]. rewrite pweight_app. cbn [pweight fold_right snd]. lia. Qed.
 
   Ltac wsimp := rewrite ?weight_pause, ?weight_add_wait; cbn [w_thr]; rewrite ?w_ts_eq;
-                rewrite ?w_steps_wait, ?w_steps_pause, ?w_steps_nil, ?w_subs_nil, ?w_subs_cons; cbn [w_fin].
+                rewrite ?w_steps_wait, ?w_steps_pause, ?w_steps_park, ?w_steps_nil, ?w_subs_nil, ?w_subs_cons; cbn [w_fin].
+
+  Lemma weight_start_helper s t hp : (weight (start_helper s t hp) <= weight s + S (2 * length hp))%nat.
+  Proof. unfold start_helper. destruct hp as [|[d a] rest]; [lia|]. rewrite weight_add_wait. cbn [w_thr]. lia. Qed.
+
+  Lemma weight_park s h t w ts :
+    (weight (fst (park H h_suspend s h t w ts)) <= weight s + match w with Some _ => S (w_ts ts) | None => w_ts ts end)%nat.
+  Proof. unfold park. cbn [fst]. destruct w; wsimp; lia. Qed.
 
   Lemma run_simple_weight s h t steps f :
-    (weight (fst (run_simple H h_end h_killx s h t steps f)) <= weight s + w_steps steps + w_fin f)%nat.
+    (weight (fst (run_simple H h_end h_kill h_suspend s h t steps f)) <= weight s + w_steps steps + w_fin f)%nat.
   Proof.
-    unfold run_simple. destruct steps as [|[d|d] rest]; cbn [fst].
-    - destruct f as [[d|j|]| | |d|d| | |n|]; cbn [fst]; wsimp; lia.
-    - wsimp. lia.
-    - wsimp. lia.
+    unfold run_simple. destruct steps as [|[d|d|w hp] rest].
+    - destruct f as [[d|j|]| | |d|d| | |n|]; cbn [fst]; try (wsimp; lia).
+      + pose proof (weight_park (add_wait s d (THelper t true)) h t None (mkTS [] [] [] FNever)) as Hp. revert Hp. wsimp. lia.
+      + pose proof (weight_park (add_wait s d (THelper t true)) h t (Some 50) (mkTS [] [] [] FNever)) as Hp. revert Hp. wsimp. lia.
+      + pose proof (weight_park s h t None (mkTS [] [] [] FNever)) as Hp. revert Hp. wsimp. lia.
+    - pose proof (weight_park s h t (Some d) (mkTS rest [] [] f)) as Hp. revert Hp. wsimp. lia.
+    - pose proof (weight_park (add_wait s d (THelper t false)) h t None (mkTS rest [] [] f)) as Hp. revert Hp. wsimp. lia.
+    - pose proof (weight_park (start_helper s t hp) h t w (mkTS rest [] [] f)) as Hp.
+      pose proof (weight_start_helper s t hp). revert Hp. destruct w; wsimp; lia.
   Qed.
 
   Lemma run_st_weight subs : forall s h t pre post f,
-    (weight (fst (run_st H h_end h_killx h_spawn h_spawned s h t pre subs post f)) <= weight s + w_ts (mkTS pre subs post f))%nat.
+    (weight (fst (run_st H h_end h_kill h_suspend h_tail h_spawn h_spawned s h t pre subs post f)) <= weight s + w_ts (mkTS pre subs post f))%nat.
   Proof.
     induction subs as [|l more IH]; intros s h t pre post f; cbn [run_st].
-    - destruct pre as [|[d|d] rest]; cbn [fst].
+    - destruct pre as [|[d|d|w hp] rest].
       + pose proof (run_simple_weight s h t post f). wsimp. lia.
-      + wsimp. lia.
-      + wsimp. lia.
-    - destruct pre as [|[d|d] rest]; cbn [fst].
+      + pose proof (weight_park s h t (Some d) (mkTS rest [] post f)) as Hp. revert Hp. wsimp. lia.
+      + pose proof (weight_park (add_wait s d (THelper t false)) h t None (mkTS rest [] post f)) as Hp. revert Hp. wsimp. lia.
+      + pose proof (weight_park (start_helper s t hp) h t w (mkTS rest [] post f)) as Hp.
+        pose proof (weight_start_helper s t hp). revert Hp. destruct w; wsimp; lia.
+    - destruct pre as [|[d|d|w hp] rest].
       + destruct (h_spawn t h) as [h1 c].
         pose proof (IH s h1 c (lpre l) (lpost l) (resolve [] (lfin l))) as H1. rewrite w_ts_eq, w_fin_resolve in H1.
-        destruct (run_st H h_end h_killx h_spawn h_spawned s h1 c (lpre l) more (lpost l) (resolve [] (lfin l))) as [s2 h2].
-        cbn [fst] in H1. pose proof (run_simple_weight s2 (h_spawned t c h2) t post f) as H2.
+        destruct (run_st H h_end h_kill h_suspend h_tail h_spawn h_spawned s h1 c (lpre l) more (lpost l) (resolve [] (lfin l))) as [s2 h2].
+        cbn [fst] in H1. pose proof (run_simple_weight s2 (h_spawned t c (h_tail c h2)) t post f) as H2.
         wsimp. unfold w_level. lia.
-      + wsimp. lia.
-      + wsimp. lia.
+      + pose proof (weight_park s h t (Some d) (mkTS rest (l :: more) post f)) as Hp. revert Hp. wsimp. lia.
+      + pose proof (weight_park (add_wait s d (THelper t false)) h t None (mkTS rest (l :: more) post f)) as Hp. revert Hp. wsimp. lia.
+      + pose proof (weight_park (start_helper s t hp) h t w (mkTS rest (l :: more) post f)) as Hp.
+        pose proof (weight_start_helper s t hp). revert Hp. destruct w; wsimp; unfold w_level; lia.
+  Qed.
+
+  Lemma wweight_find_main t l ts : find_main t l = Some ts ->
+    (wweight (filter (fun w => negb (is_main t w)) l) + S (w_ts ts) <= wweight l)%nat.
+  Proof.
+    unfold wweight. induction l as [|a l IH]; cbn [find_main filter fold_right]; [discriminate|].
+    unfold is_main at 1. destruct (wthr a) as [t' ts'|t' b|t' hp] eqn:Ea.
+    - destruct (N.eqb_spec t' t) as [->|Hn]; cbn [negb].
+      + intro E. injection E as ->. pose proof (wweight_filter (fun w => negb (is_main t w)) l) as Hf. unfold wweight in Hf.
+        cbn [w_thr]. lia.
+      + intro E. specialize (IH E). cbn [fold_right]. rewrite Ea. lia.
+    - cbn [negb]. intro E. specialize (IH E). cbn [fold_right]. rewrite Ea. lia.
+    - cbn [negb]. intro E. specialize (IH E). cbn [fold_right]. rewrite Ea. lia.
+  Qed.
+
+  Lemma weight_unpark s t : (weight (unpark s t) <= weight s)%nat.
+  Proof.
+    rewrite !weight_eq. unfold unpark. cbn [pend paused].
+    pose proof (wweight_filter (fun w => negb (is_main t w)) (pend s)). pose proof (pweight_del t (paused s)). lia.
+  Qed.
+
+  Lemma weight_unpark_ts s t ts : parked_ts s t = Some ts -> (weight (unpark s t) + w_ts ts <= weight s)%nat.
+  Proof.
+    unfold parked_ts. rewrite !weight_eq. unfold unpark. cbn [pend paused].
+    destruct (lookup t (paused s)) as [ts'|] eqn:El.
+    - intro E. injection E as ->. pose proof (pweight_del_lookup t (paused s) ts El).
+      pose proof (wweight_filter (fun w => negb (is_main t w)) (pend s)). lia.
+    - intro E. pose proof (wweight_find_main t (pend s) ts E). pose proof (pweight_del t (paused s)). lia.
+  Qed.
+
+  Lemma helper_act_weight s h t a : (weight (fst (helper_act H h_kill h_suspend s h t a)) <= weight s + 1)%nat.
+  Proof.
+    unfold helper_act. destruct a as [e| |].
+    - destruct (parked_ts s t) as [ts|] eqn:E; cbn [fst]; [|lia].
+      pose proof (weight_unpark_ts s t ts E). wsimp. lia.
+    - destruct (parked_ts s t) as [ts|] eqn:E; cbn [fst]; [|lia].
+      pose proof (weight_unpark_ts s t ts E). wsimp. lia.
+    - cbn [fst]. pose proof (weight_unpark s t). lia.
   Qed.
 
   Lemma run_thr_weight s h th :
-    (weight (fst (run_thr H h_end h_kill h_killx h_spawn h_spawned s h th)) + 1 <= weight s + w_thr th)%nat.
+    (weight (fst (run_thr H h_end h_kill h_exec h_suspend h_tail h_spawn h_spawned s h th)) + 1 <= weight s + w_thr th)%nat.
   Proof.
-    destruct th as [t ts|t [|]]; cbn [run_thr].
-    - pose proof (run_st_weight (tsubs ts) s h t (tpre ts) (tpost ts) (tfin ts)) as H1.
-      destruct ts as [pre subs post f]. cbn [tpre tsubs tpost tfin w_thr] in *. lia.
-    - cbn [fst]. rewrite !weight_eq. cbn [pend paused].
-      pose proof (wweight_filter (fun w => negb (is_main t w)) (pend s)). pose proof (pweight_del t (paused s)).
-      cbn [w_thr]. lia.
+    destruct th as [t ts|t [|]|t hp]; cbn [run_thr].
+    - pose proof (run_st_weight (tsubs ts) s (h_exec t h) t (tpre ts) (tpost ts) (tfin ts)) as H1.
+      destruct (run_st H h_end h_kill h_suspend h_tail h_spawn h_spawned s (h_exec t h) t (tpre ts) (tsubs ts) (tpost ts) (tfin ts)) as [s1 h1].
+      destruct ts as [pre subs post f]. cbn [tpre tsubs tpost tfin w_thr fst] in *. lia.
+    - cbn [fst]. pose proof (weight_unpark s t). cbn [w_thr]. lia.
     - destruct (lookup t (paused s)) as [ts|] eqn:El; cbn [fst].
       + rewrite weight_add_wait. rewrite !weight_eq. cbn [pend paused].
         pose proof (pweight_del_lookup t (paused s) ts El). cbn [w_thr]. lia.
       + cbn [w_thr]. lia.
+    - destruct hp as [|[d a] rest]; cbn [fst w_thr length]; [lia|].
+      pose proof (helper_act_weight s h t a) as H1.
+      destruct (helper_act H h_kill h_suspend s h t a) as [s1 h1]. cbn [fst] in *.
+      pose proof (weight_start_helper s1 t rest). lia.
   Qed.
 
-  Lemma resume_ok fuel : forall s h, (weight s <= fuel)%nat -> snd (resume H h_end h_kill h_killx h_spawn h_spawned fuel s h) = true.
+  Lemma resume_ok fuel : forall s h, (weight s <= fuel)%nat -> snd (resume H h_end h_kill h_exec h_suspend h_tail h_spawn h_spawned fuel s h) = true.
   Proof.
     induction fuel as [|fuel IH]; intros s h Hw; cbn [resume].
     - destruct (pend s) as [|x r] eqn:Ep; [reflexivity|].
@@ -750,7 +837,7 @@ Section Fuel.
       set (m := min_w x r).
       set (s1 := mkSched (remove_w (wseq m) (x :: r)) (paused s) (frame s) (clock s) (sseq s)).
       pose proof (run_thr_weight s1 h (wthr m)) as Hr.
-      destruct (run_thr H h_end h_kill h_killx h_spawn h_spawned s1 h (wthr m)) as [s2 h2]. cbn [fst] in Hr.
+      destruct (run_thr H h_end h_kill h_exec h_suspend h_tail h_spawn h_spawned s1 h (wthr m)) as [s2 h2]. cbn [fst] in Hr.
       apply IH.
       pose proof (wweight_remove m (x :: r) (min_w_in r x)) as Hm.
       rewrite (weight_eq s) in Hw. rewrite (weight_eq s1) in Hr. rewrite Ep in Hw. unfold s1 in Hr. cbn [pend paused] in Hr. fold m in Hm. lia.
@@ -762,13 +849,13 @@ Proof.
   destruct st as [sc s]. unfold s_step.
   destruct o as [lbl np prog args|r|r|r|r|a b|a b|dt| |]; cbn [step_op]; try reflexivity.
   - destruct (s_begin lbl s) as [s1 t]. destruct lbl.
-    + destruct (run_st store s_end s_kill s_spawn s_spawned sc s1 t _ _ _ _) as [sa s2].
-      pose proof (resume_ok store s_end s_kill s_kill s_spawn s_spawned (weight sa) sa s2 (le_n _)) as Hok.
-      destruct (resume store s_end s_kill s_kill s_spawn s_spawned (weight sa) sa s2) as [[sc3 s3] ok]. cbn [snd] in Hok. subst ok.
+    + destruct (run_st store s_end s_kill s_noop s_noop s_spawn s_spawned sc s1 t _ _ _ _) as [sa s2].
+      pose proof (resume_ok store s_end s_kill s_noop s_noop s_noop s_spawn s_spawned (weight sa) sa s2 (le_n _)) as Hok.
+      destruct (resume store s_end s_kill s_noop s_noop s_noop s_spawn s_spawned (weight sa) sa _) as [[sc3 s3] ok]. cbn [snd] in Hok. subst ok.
       unfold mk_obs. destruct (s_obs _) as [[a b] c]. reflexivity.
     + unfold mk_obs. destruct (s_obs _) as [[a b] c]. reflexivity.
-  - pose proof (resume_ok store s_end s_kill s_kill s_spawn s_spawned _ (mkSched (pend sc) (paused sc) (clock sc) (clock sc) (sseq sc)) s (le_n _)) as Hok.
-    destruct (resume store s_end s_kill s_kill s_spawn s_spawned _ _ s) as [[sc3 s3] ok]. cbn [snd] in Hok. subst ok.
+  - pose proof (resume_ok store s_end s_kill s_noop s_noop s_noop s_spawn s_spawned _ (mkSched (pend sc) (paused sc) (clock sc) (clock sc) (sseq sc)) s (le_n _)) as Hok.
+    destruct (resume store s_end s_kill s_noop s_noop s_noop s_spawn s_spawned _ _ s) as [[sc3 s3] ok]. cbn [snd] in Hok. subst ok.
     unfold mk_obs. destruct (s_obs _) as [[a b] c]. reflexivity.
 Qed.
 
@@ -803,39 +890,51 @@ Section Due.
   Variable H : Type.
   Variable h_end : N -> endv -> H -> H.
   Variable h_kill : N -> H -> H.
-  Variable h_killx : N -> H -> H.
+  Variable h_exec h_suspend h_tail : N -> H -> H.
   Variable h_spawn : N -> H -> H * N.
   Variable h_spawned : N -> N -> H -> H.
 
-  Lemma run_simple_frame s h t steps f : frame (fst (run_simple H h_end h_killx s h t steps f)) = frame s.
+  Lemma frame_start_helper s t hp : frame (start_helper s t hp) = frame s.
+  Proof. unfold start_helper. destruct hp as [|[d a] rest]; reflexivity. Qed.
+
+  Lemma frame_park s h t w ts : frame (fst (park H h_suspend s h t w ts)) = frame s.
+  Proof. unfold park. destruct w; reflexivity. Qed.
+
+  Lemma run_simple_frame s h t steps f : frame (fst (run_simple H h_end h_kill h_suspend s h t steps f)) = frame s.
   Proof.
-    unfold run_simple. destruct steps as [|[d|d] rest]; cbn [fst]; try reflexivity.
-    destruct f as [[d|j|]| | |d|d| | |n|]; reflexivity.
+    unfold run_simple. destruct steps as [|[d|d|w hp] rest]; rewrite ?frame_park, ?frame_start_helper; try reflexivity.
+    destruct f as [[d|j|]| | |d|d| | |n|]; rewrite ?frame_park; reflexivity.
   Qed.
 
   Lemma run_st_frame subs : forall s h t pre post f,
-    frame (fst (run_st H h_end h_killx h_spawn h_spawned s h t pre subs post f)) = frame s.
+    frame (fst (run_st H h_end h_kill h_suspend h_tail h_spawn h_spawned s h t pre subs post f)) = frame s.
   Proof.
     induction subs as [|l more IH]; intros s h t pre post f; cbn [run_st].
-    - destruct pre as [|[d|d] rest]; cbn [fst]; try reflexivity. apply run_simple_frame.
-    - destruct pre as [|[d|d] rest]; cbn [fst]; try reflexivity.
+    - destruct pre as [|[d|d|w hp] rest]; rewrite ?frame_park, ?frame_start_helper; try reflexivity. apply run_simple_frame.
+    - destruct pre as [|[d|d|w hp] rest]; rewrite ?frame_park, ?frame_start_helper; try reflexivity.
       destruct (h_spawn t h) as [h1 c].
       pose proof (IH s h1 c (lpre l) (lpost l) (resolve [] (lfin l))) as H1.
-      destruct (run_st H h_end h_killx h_spawn h_spawned s h1 c (lpre l) more (lpost l) (resolve [] (lfin l))) as [s2 h2].
+      destruct (run_st H h_end h_kill h_suspend h_tail h_spawn h_spawned s h1 c (lpre l) more (lpost l) (resolve [] (lfin l))) as [s2 h2].
       cbn [fst] in H1. now rewrite run_simple_frame.
   Qed.
 
-  Lemma run_thr_frame s h th : frame (fst (run_thr H h_end h_kill h_killx h_spawn h_spawned s h th)) = frame s.
+  Lemma run_thr_frame s h th : frame (fst (run_thr H h_end h_kill h_exec h_suspend h_tail h_spawn h_spawned s h th)) = frame s.
   Proof.
-    destruct th as [t ts|t [|]]; cbn [run_thr].
-    - apply run_st_frame.
+    destruct th as [t ts|t [|]|t hp]; cbn [run_thr].
+    - pose proof (run_st_frame (tsubs ts) s (h_exec t h) t (tpre ts) (tpost ts) (tfin ts)) as H1.
+      destruct (run_st H h_end h_kill h_suspend h_tail h_spawn h_spawned s (h_exec t h) t (tpre ts) (tsubs ts) (tpost ts) (tfin ts)) as [s1 h1].
+      exact H1.
     - reflexivity.
     - destruct (lookup t (paused s)) as [ts|]; reflexivity.
+    - destruct hp as [|[d a] rest]; [reflexivity|].
+      assert (H1 : frame (fst (helper_act H h_kill h_suspend s h t a)) = frame s).
+      { unfold helper_act. destruct a as [e| |]; [destruct (parked_ts s t)|destruct (parked_ts s t)|]; reflexivity. }
+      destruct (helper_act H h_kill h_suspend s h t a) as [s1 h1]. cbn [fst] in *. now rewrite frame_start_helper.
   Qed.
 
   Lemma resume_nothing_due fuel : forall s h, (weight s <= fuel)%nat ->
-    frame (fst (fst (resume H h_end h_kill h_killx h_spawn h_spawned fuel s h))) = frame s /\
-    forall w, In w (pend (fst (fst (resume H h_end h_kill h_killx h_spawn h_spawned fuel s h)))) -> frame s < wdue w.
+    frame (fst (fst (resume H h_end h_kill h_exec h_suspend h_tail h_spawn h_spawned fuel s h))) = frame s /\
+    forall w, In w (pend (fst (fst (resume H h_end h_kill h_exec h_suspend h_tail h_spawn h_spawned fuel s h)))) -> frame s < wdue w.
   Proof.
     induction fuel as [|fuel IH]; intros s h Hw; cbn [resume].
     - destruct (pend s) as [|x r] eqn:Ep; cbn [fst]; [split; [reflexivity|rewrite Ep; intros w []]|].
@@ -847,9 +946,9 @@ Section Due.
       + split; [reflexivity|]. rewrite Ep. intros w Hin. pose proof (min_w_le r x w Hin). lia.
       + set (m := min_w x r).
         set (s1 := mkSched (remove_w (wseq m) (x :: r)) (paused s) (frame s) (clock s) (sseq s)).
-        pose proof (run_thr_weight H h_end h_kill h_killx h_spawn h_spawned s1 h (wthr m)) as Hr.
+        pose proof (run_thr_weight H h_end h_kill h_exec h_suspend h_tail h_spawn h_spawned s1 h (wthr m)) as Hr.
         pose proof (run_thr_frame s1 h (wthr m)) as Hf.
-        destruct (run_thr H h_end h_kill h_killx h_spawn h_spawned s1 h (wthr m)) as [s2 h2]. cbn [fst] in Hr, Hf.
+        destruct (run_thr H h_end h_kill h_exec h_suspend h_tail h_spawn h_spawned s1 h (wthr m)) as [s2 h2]. cbn [fst] in Hr, Hf.
         pose proof (wweight_remove m (x :: r) (min_w_in r x)) as Hm. fold m in Hm.
         rewrite (weight_eq s) in Hw. rewrite (weight_eq s1) in Hr. rewrite Ep in Hw. unfold s1 in Hr. cbn [pend paused] in Hr.
         destruct (IH s2 h2) as [F1 F2]; [lia|].
